@@ -118,7 +118,7 @@ CASES["C01"] = [
     ("hoist-if: same-block-as-if guard deleted (F-19)", "mutant", DEDUP,
      "        if op.parent_block() is not op.in_state.owner.parent_block():\n            return\n", "", ["C01.hoist-if"]),
     ("hoist-if: value availability guard deleted (F-21)", "mutant", DEDUP,
-     "            if (\n                isinstance(val, OpResult)\n                and val.op.parent_block() is block\n                and block.get_operation_index(val.op) > if_index\n            ):\n                return\n", "            pass\n", ["C01.hoist-if"]),
+     "            if (\n                isinstance(val, OpResult)\n                and val.op.parent_block() is block\n                and block.get_operation_index(val.op) >= if_index\n            ):\n                return\n", "            pass\n", ["C01.hoist-if"]),
     ("pull: effects guard deleted (F-18)", "mutant", DEDUP, "        if has_accfg_effects(loop_op):\n            return\n", "", ["C01.pull"]),
     ("all_setup_ops_in_region: top level only", "mutant", TRACE, "    for op in region.walk():\n        if isinstance(op, accfg.SetupOp):", "    for op in region.ops:\n        if isinstance(op, accfg.SetupOp):", ["C01.all-setups"]),
     ("all_setup_ops_in_region: accelerator filter dropped", "mutant", TRACE, "            if op.accelerator.data != accel:\n                continue\n", "", ["C01.all-setups"]),
@@ -875,4 +875,37 @@ CASES["C19"] += [
 ]
 CASES["C03"] += [
     ("reintroduce F-42 (canonicalize drops empty dimensions)", "mutant", "snaxc/ir/dart/access_pattern.py", "@revert:d1b10f0~1", "", ["C03.drop-unit"]),
+]
+
+CASES["C17"] += [
+    ("reintroduce F-43 (dim of the loop's own block argument hoisted)", "mutant", "snaxc/transforms/reuse_memref_allocs.py", "@revert:13e9cf7~1", "", ["C17.block-args"]),
+]
+CASES["C01"] += [
+    ("reintroduce F-44 (a result of the scf.if passes the availability test)", "mutant", "snaxc/transforms/accfg_dedup.py", "@revert:d049b87~1", "", ["C01.hoist-if"]),
+]
+CASES["C16"] += [
+    ("tile_dim is the identity for tile size 1", "mutant", "snaxc/ir/dart/access_pattern.py",
+     "        transform_map = AffineTransform.from_affine_map(\n            AffineMap(\n                num_dims=self.num_dims + 1,\n                num_symbols=0,\n                # (d0, d1, d2, ..., dim-1) -> (d0, d1, d2, ..., dim-1)",
+     "        if template_bound == 1:\n            return self\n        transform_map = AffineTransform.from_affine_map(\n            AffineMap(\n                num_dims=self.num_dims + 1,\n                num_symbols=0,\n                # (d0, d1, d2, ..., dim-1) -> (d0, d1, d2, ..., dim-1)", ["C16.tile-inserts"]),
+]
+CASES["C08"] += [
+    ("broadcast flag decided by the last spatial dimension", "mutant", "snaxc/accelerators/snax.py",
+     "                if stride == 0 and any(isinstance(opt, HasBroadcast) for opt in streamer.opts):\n                    do_broadcast[operand] = True",
+     "                do_broadcast[operand] = stride == 0 and any(isinstance(opt, HasBroadcast) for opt in streamer.opts)", ["C08.broadcast-any"]),
+    ("twin: broadcast flag or-accumulated", "twin", "snaxc/accelerators/snax.py",
+     "                if stride == 0 and any(isinstance(opt, HasBroadcast) for opt in streamer.opts):\n                    do_broadcast[operand] = True",
+     "                do_broadcast[operand] = do_broadcast[operand] or (stride == 0 and any(isinstance(opt, HasBroadcast) for opt in streamer.opts))", []),
+]
+CASES["C19"] += [
+    ("collection canonicalised with the first pattern's bounds", "mutant", "snaxc/ir/dart/access_pattern.py",
+     "return type(self)(pattern.canonicalize() for pattern in self)", "return self.clear_unused_dims()", ["C19.collection-canon"]),
+]
+CASES["C14"] += [
+    ("a barrier followed by a dispatchable op does not end the group", "mutant", "snaxc/transforms/dispatch_regions.py",
+     "            for op in block.walk(region_first=True):\n",
+     "            for op in block.walk(region_first=True):\n                if len(ops_to_dispatch) and op.next_op is not None and not dispatch_rule(op) and dispatch_rule(op.next_op):\n                    continue\n", ["C14.no-skip"]),
+]
+CASES["C09"] += [
+    ("tile accepted when it divides the whole dimension", "mutant", "snaxc/transforms/set_memory_layout.py",
+     "if size_remaining % schedule_bound != 0:", "if memref_type.get_shape()[accessed_dim] % schedule_bound != 0:", ["C09.radix"]),
 ]
